@@ -105,7 +105,7 @@ class FakeSSL:
         if not self.script:
             raise Stuck
         kind, cons, val, emit = self.script.pop(0)
-        self.calls.append((name, kind))
+        self.calls.append((name, kind, arg))
         if cons > 0:
             self.bio_in.read(cons)
         self.bio_out.buf += bytes(emit)      # OpenSSL writes to the BIO regardless of MemoryBIO.write_eof()
@@ -327,12 +327,25 @@ class PumpCase:
             if c[0] == 0 and c[1] == 0 and c[2] > 0:
                 self.flags.add("flushed")
         last = sslcalls[-1][1] if sslcalls else None
+        want_name = {0: "do_handshake", 1: "read", 2: "write", 3: "unwrap", 4: "unwrap"}[op[0]]
+        for (name, _k, arg) in sslcalls:
+            if name != want_name:
+                self.mon.append(f"{OPN[op[0]]} called SSLObject.{name}")
+            elif op[0] == 1 and arg != op[1]:
+                self.mon.append(f"receive({op[1]}) called SSLObject.read({arg})")
+            elif op[0] == 2 and bytes(arg) != bytes(op[1]):
+                self.mon.append("send(item) called SSLObject.write with different data")
         if op[0] == 1 and last in (4, 5) and code in (1, 2):
             self.flags.add("ssl_eof_std" if self.std else "ssl_eof_nonstd")
             if self.std and code != 2:
                 self.mon.append("standard_compatible: SSL unexpected-EOF reported as a clean EndOfStream")
             if not self.std and code != 1:
                 self.mon.append("not standard_compatible: SSL unexpected-EOF not reported as EndOfStream")
+        if code in (0, 1) and last in (1, 2) and not (op[0] == 4 and not self.std):
+            self.mon.append(f"{OPN[op[0]]} returned although the SSL object's last answer was "
+                            f"{KINDS[last]} (the call was not retried)")
+        if code == 0 and op[0] != 4 and bout.pending:
+            self.mon.append(f"{OPN[op[0]]} returned normally with {bout.pending} bytes of produced ciphertext unsent")
         if op[0] == 1 and code == 0:
             if len(val) > op[1]:
                 # only meaningful when the scripted read() honoured its bound
@@ -342,9 +355,9 @@ class PumpCase:
                 self.mon.append("receive() returned an empty bytes object")
         if op[0] == 1 and code == 1 and last == 0:
             self.flags.add("clean_eos")
-        if any(k == 2 for _, k in sslcalls):
+        if any(c[1] == 2 for c in sslcalls):
             self.flags.add("want_write")
-        if any(k == 1 for _, k in sslcalls):
+        if any(c[1] == 1 for c in sslcalls):
             self.flags.add("want_read")
 
 
@@ -541,7 +554,7 @@ def gen_scenarios(rng: random.Random, tier: str, struct):
                               payload_c=[20], payload_s=[30, 1], recv_c=[7], recv_s=[65536],
                               cut=(rng.choice(["c2s", "s2c"]), ("abs", off)), initiator=rng.choice(["client", "server"])))
     # 5. random scenarios
-    for _ in range(20 if quick else 600):
+    for _ in range(20 if quick else 2500):
         pc = rng.choice(small_payloads + big_payloads)
         ps = rng.choice(small_payloads + big_payloads[:3])
         chs = [c for c in CHUNKINGS if c not in ("one", "seven")] if sum(pc) + sum(ps) > 6000 else list(CHUNKINGS)
@@ -683,7 +696,7 @@ def check(tier: str) -> int:
     bio_bad = bio_selfcheck(rng, 200 if tier == "quick" else 3000)
     cases = list(corpus_a) + small_scope_cases()
     n_small = len(cases) - len(corpus_a)
-    n_random = 4000 if tier == "quick" else 60000
+    n_random = 4000 if tier == "quick" else 150000
     cases += [gen_pump_case(rng) for _ in range(n_random)]
     asyncio.run(run_pump_cases(cases))
     flats = [c.flat() for c in cases]
